@@ -355,26 +355,19 @@ Proof.
   - reflexivity.
 Qed.
 
-(* states reachable from the constructor: by accepted calls only (strong), or by any calls (weak) *)
-Inductive xreach (xo : xobs) : xst -> Prop :=
-| xreach_init : xreach xo (xinit xo)
-| xreach_step : forall s xkw s', xreach xo s -> NoDup (map fst xkw) -> xselect xo s xkw = (OOk, s') -> xreach xo s'
-| xreach_rej : forall s xkw oc, xreach xo s -> fst (xselect xo s xkw) = oc -> oc = OTypeError \/ oc = OIndexError ->
-               xreach xo (snd (xselect xo s xkw)).
+(* states reachable from the constructor by ANY history (accepted, rejected, raised part-way): weak invariant *)
 Inductive xreach_any (xo : xobs) : xst -> Prop :=
 | xany_init : xreach_any xo (xinit xo)
 | xany_step : forall s xkw, xreach_any xo s -> NoDup (map fst xkw) -> xreach_any xo (snd (xselect xo s xkw)).
+(* ... and those in which no part-way failure is pending: the constructor state, the state after an ACCEPTED call
+   from any reachable state (also one left by failed calls), and such a state after documented rejections *)
+Inductive xreach (xo : xobs) : xst -> Prop :=
+| xreach_init : xreach xo (xinit xo)
+| xreach_ok : forall s xkw s', xreach_any xo s -> NoDup (map fst xkw) -> xselect xo s xkw = (OOk, s') -> xreach xo s'
+| xreach_rej : forall s xkw oc, xreach xo s -> fst (xselect xo s xkw) = oc -> oc = OTypeError \/ oc = OIndexError ->
+               xreach xo (snd (xselect xo s xkw)).
 
 Definition has_windows (xo : xobs) : Prop := (0 < List.length (x_spws xo))%nat /\ (0 < List.length (x_subs xo))%nat.
-
-Lemma xreach_XInv : forall xo s, has_windows xo -> xreach xo s -> XInv xo s.
-Proof.
-  intros xo s [Hs Hb] R. induction R.
-  - apply XInv_init; assumption.
-  - eapply xselect_XInv; eauto. apply (xi_weak _ _ IHR).
-  - destruct (xselect xo s xkw) as [oc' s'] eqn:E. cbn [fst snd] in *. subst oc'.
-    rewrite (rejected_untouched _ _ _ _ _ E H0). exact IHR.
-Qed.
 
 Lemma xreach_any_WInv : forall xo s, has_windows xo -> xreach_any xo s -> WInv xo s.
 Proof.
@@ -382,6 +375,28 @@ Proof.
   - apply (xi_weak _ _ (XInv_init xo Hs Hb)).
   - apply xselect_WInv; assumption.
 Qed.
+
+Lemma xreach_XInv : forall xo s, has_windows xo -> xreach xo s -> XInv xo s.
+Proof.
+  intros xo s Hw R. induction R.
+  - destruct Hw. apply XInv_init; assumption.
+  - eapply xselect_XInv; eauto. apply xreach_any_WInv; assumption.
+  - destruct (xselect xo s xkw) as [oc' s'] eqn:E. cbn [fst snd] in *. subst oc'.
+    rewrite (rejected_untouched _ _ _ _ _ E H0). exact IHR.
+Qed.
+
+Lemma xreach_is_any : forall xo s, xreach xo s -> xreach_any xo s.
+Proof.
+  intros xo s R. induction R.
+  - apply xany_init.
+  - replace s' with (snd (xselect xo s xkw)) by (rewrite H1; reflexivity). apply xany_step; assumption.
+  - destruct (xselect xo s xkw) as [oc' s'] eqn:E. cbn [fst snd] in *. subst oc'.
+    rewrite (rejected_untouched _ _ _ _ _ E H0). exact IHR.
+Qed.
+
+(* a step from a state without pending failure *)
+Lemma xreach_step : forall xo s xkw s', xreach xo s -> NoDup (map fst xkw) -> xselect xo s xkw = (OOk, s') -> xreach xo s'.
+Proof. intros xo s xkw s' R N H. eapply xreach_ok; eauto. apply xreach_is_any. exact R. Qed.
 
 (* ---------------------------------------------------------------- the spec in the same shape *)
 Definition xspec_masks (xo : xobs) (m : xmasks) (kw : kwargs) (spw sub : Z) : xmasks :=
